@@ -71,7 +71,9 @@ class Link(object):
     self.relay = relayh.Relay({'max_queue': 10 ** 6, 'batch': batch, 'flow': True, 'dynamic': False,
                                'protocol': protocol, 'ndest': 1, 'metrics': ('m',)})
 
-  def transmit(self, datapoints):
+  def transmit(self, datapoints, arm=0):
+    """arm=n: the n-th write fills the socket buffer (the transport pauses the producer in the middle of the
+    burst); the producer is resumed once everything that can be sent has been sent."""
     r = self.relay
     r.reset()
     v = r.apply(('conn_ok', 0))
@@ -79,11 +81,15 @@ class Link(object):
       raise core.HarnessError('link set-up failed: %r' % (v,))
     d = r.dests[0]
     t = r.transport(d)
+    t.pause_after = arm
     for name, ts, value in datapoints:
       # routed by the generated rules: names not starting with m/n go to the default rule = this destination
       r.cm.sendDatapoint(name, (ts, value))
     for _ in range(10000):
       if not r.reactor.clock.getDelayedCalls():
+        if t.producer is not None and getattr(t.producer, 'paused', False):
+          t.producer.resumeProducing()
+          continue
         break
       calls = r.reactor.clock.getDelayedCalls()
       nxt = min(c.getTime() for c in calls)
@@ -176,14 +182,15 @@ def split_shard(arg):
   okc = 0
   bad = []
   pool = [(NAMES[i % len(NAMES)], TIMESTAMPS[i % len(TIMESTAMPS)], [1.5, -0.0, 2 ** 53, 1e-12, math.inf, 7, 0.1][i % 7]) for i in range(7)]
-  for qlen in range(0, 8):
+  for qlen, arm in [(q, a) for q in range(0, 8) for a in (0, 1, 2, 3)]:
     sent = pool[:qlen]
-    data, left = link.transmit(sent)
-    cuts = [None] + list(range(1, len(data)))
+    data, left = link.transmit(sent, arm)
+    cuts = [None] + (list(range(1, len(data))) if not arm else [])
     for cut in cuts:
       got, exc, closing = receive(kind, data, cut)
       n += 1
-      where = '%s link, queue of %d, MAX_DATAPOINTS_PER_MESSAGE=%d, cut %r' % (kind, qlen, batch, cut)
+      where = '%s link, queue of %d, MAX_DATAPOINTS_PER_MESSAGE=%d, cut %r%s' % (
+        kind, qlen, batch, cut, ', transport pauses after write %d' % arm if arm else '')
       if exc is not None or closing or left:
         bad.append(('transport', '%s: exception %r closing %r left %d' % (where, exc, closing, left), {'kind': kind, 'sent': sent, 'batch': batch}))
         break
